@@ -9,12 +9,13 @@ COMMON_TRUST = [
 
 PROPS = {
     'C02': dict(
-        units=['encode', 'decode', 'status', 'reqresp', 'metadata', 'clientglue'], level='proof',
+        units=['encode', 'decode', 'status', 'reqresp', 'metadata', 'clientglue', 'serverglue'], level='proof',
         witness=[dict(append_to='tonic/src/status.rs', module='replay/status_witness.rs', crate='tonic', filter='verif_witness_status', features=['--features', 'gzip,deflate,zstd']), dict(append_to='tonic/src/codec/decode.rs', module='replay/decode_witness.rs', crate='tonic', filter='verif_witness_decode', features=['--features', 'gzip,deflate,zstd'])],
         not_covered=[
-            'PARTIAL: decided here is the hand-off of status / trailers / metadata at both ends - server: EncodeBody turns the handler status (or OK) into exactly one trailers block written(st) after every message frame (enc_step); client: Streaming yields the buffered messages first (N1), then the status read from the trailers (response: read(trailers, st)), exactly once (F3); Status write/read round trip (lemma_status_roundtrip); Request/Response head construction',
-            'NOT covered: the async glue of server::Grpc::{unary,server_streaming,client_streaming,streaming,map_request_*,map_response} and client::Grpc::{unary,client_streaming,server_streaming,streaming,create_response} (accepted by this Verus in probes, not built in this round)',
-            'the HTTP/2 transport between the two ends (hyper/h2): that the client http::Response carries the status line, headers, DATA and trailers the server produced, under any fragmentation',
+            'decided here: the hand-off of status / trailers / metadata at both ends (encode, decode, status units) AND the call-shape glue: client Grpc::{prepare_request, create_response, streaming, client_streaming, unary, server_streaming} and server Grpc::{map_request_unary, map_request_streaming, map_response, unary, server_streaming, client_streaming, streaming} as sequential async code (Verus treats .await as a call)',
+            'the glue is proved RELATIVE to assumed interfaces: the transport (GrpcService: ghost log of requests + the answer its future resolves to), the handler (respond(): its answer is a function of handler and request), the Codec, and the Streaming stream API (try_next / trailers as functions nxt / trl of the stream state, A-tonic-decode-02); Streaming::message / Streaming::trailers themselves (future::poll_fn over poll_next) are not under contract',
+            'the HTTP/2 transport between the two ends (hyper/h2): that the client http::Response carries the status line, headers, DATA and trailers the server produced, under any fragmentation and interleaving; task scheduling (the property quantifies over readiness interleavings: covered only per poll call by the ghost-history contracts of encode / decode)',
+            'Grpc::apply_compression_config (for loop over a const slice with a reference pattern) and the generated code that picks the call shape are not under contract',
         ]),
     'C16': dict(
         units=['webserver', 'webservice'], level='proof',
@@ -49,7 +50,7 @@ PROPS = {
             'is_ascii_digits (iterator adapter) is discharged by the complete Kani harness kani::timeout_digits for every ASCII string of at most 8 bytes - the Verus shim carries that length as a precondition, proved at the call site - and linked as a callee contract; str::parse::<u64>, str::split_at, Display of integers are assumed std contracts (A-std-parse-01, A-std-str-04, A-fmt-01)',
         ]),
     'C08': dict(
-        units=['metadata', 'reqresp', 'status'], level='proof',
+        units=['metadata', 'reqresp', 'status', 'clientglue', 'serverglue'], level='proof',
         not_covered=[
             'value preservation rests on the assumed http::HeaderMap multimap contract (A-http-20..28) and the base64 inverse axioms (A-b64-01: both engines decode padded and unpadded input); tonic/src/util.rs engine configuration is represented by the Engine shim',
             'end-to-end transport of the header block (hyper/h2/hpack)',
@@ -58,7 +59,7 @@ PROPS = {
         ]),
     'C05': dict(
         witness=[dict(append_to='tonic/src/codec/compression.rs', module='replay/compression_witness.rs', crate='tonic', filter='verif_witness_compression', features=['--features', 'gzip,deflate,zstd']), dict(append_to='tonic/src/codec/decode.rs', module='replay/decode_witness.rs', crate='tonic', filter='verif_witness_decode', features=['--features', 'gzip,deflate,zstd'])],
-        units=['compression', 'decode', 'encode', 'clientglue'], kani=['cfg_is_enabled', 'cfg_is_empty', 'cfg_enable', 'cfg_pop'], level='proof',
+        units=['compression', 'decode', 'encode', 'clientglue', 'serverglue'], kani=['cfg_is_enabled', 'cfg_is_empty', 'cfg_enable', 'cfg_pop'], level='proof',
         not_covered=[
             'EnabledCompressionEncodings::{enable,pop,is_enabled,is_empty} use iterator adapters Verus rejects: their contracts are discharged by the complete Kani harnesses kani::cfg_* on the real code (all slot states x all encodings) and linked in the Verus units as callee contracts; into_accept_encoding_header_value (intractable for CBMC: 46 GB) is proved in the Verus unit with `self.inner.into_iter().flatten()` routed through an assumed std contract (A-core-21: the Some entries in slot order)',
             'server/client plumbing that passes the right one of the two configured sets (send vs accept) into these functions (server::Grpc, client::Grpc glue) is not yet under contract',
@@ -93,14 +94,14 @@ PROPS = {
         ]),
     'C03': dict(
         witness=[dict(append_to='tonic/src/codec/encode.rs', module='replay/encode_witness.rs', crate='tonic', filter='verif_witness_encode', features=['--features', 'gzip,deflate,zstd'])],
-        units=['wire', 'encode', 'status', 'reqresp', 'compression'], level='proof',
+        units=['wire', 'encode', 'status', 'reqresp', 'compression', 'clientglue', 'serverglue'], level='proof',
         not_covered=[
             'client prepare_request / server map_response glue is not yet under contract in this build (Status::into_http, Response::into_http, Request::into_http are)',
             'that compress() uses the coder named in grpc-encoding (FFI)', 'HTTP/2 serialisation of heads and trailers (hyper/h2)',
         ]),
     'C06': dict(
         witness=[dict(append_to='tonic/src/codec/decode.rs', module='replay/decode_witness.rs', crate='tonic', filter='verif_witness_decode', features=['--features', 'gzip,deflate,zstd']), dict(append_to='tonic/src/codec/encode.rs', module='replay/encode_witness.rs', crate='tonic', filter='verif_witness_encode', features=['--features', 'gzip,deflate,zstd'])],
-        units=['encode', 'decode', 'compression'], level='proof',
+        units=['encode', 'decode', 'compression', 'clientglue', 'serverglue'], level='proof',
         not_covered=['server/client plumbing of max_*_message_size from the configuration into Streaming / EncodeBody (straight-line glue, not yet under contract)'],
         ),
     'C07': dict(
